@@ -558,6 +558,29 @@ class SpecEnv(object):
                             alts.append(z3.And(e[1] == to_val(obj), e[2] == to_val(name)))
             return b2v(z3.Or(alts)) if alts else False
         P["called_and_returned_attr"] = p_called_and_returned_attr
+
+        def p_raised_by_attr(ctx, name):
+            """the exception came out of reading or calling the attribute `name` of some object: the last ghost event is that
+            failing read, or the failing call of what such a read returned"""
+            tr = ctx.st.trace
+            if not tr:
+                return False
+            last = tr[-1]
+            nm = to_val(name)
+            if last[0] == "GetAttr" and isinstance(last[3], str) and last[3] == "raise":
+                return b2v(last[2] == nm)
+            if last[0] == "Call" and isinstance(last[3], str) and last[3] == "raise":
+                for e in reversed(tr[:-1]):
+                    if e[0] == "GetAttr" and z3.is_expr(e[3]) and z3.is_expr(last[1]) and z3.eq(e[3], last[1]):
+                        return b2v(e[2] == nm)
+            return False
+        P["raised_by_attr"] = p_raised_by_attr
+
+        def p_n_attr_reads(ctx, name):
+            """how many GetAttr events read an attribute whose name is (syntactically) this text"""
+            nm = to_val(name)
+            return len([e for e in ctx.st.trace if e[0] == "GetAttr" and z3.is_expr(e[2]) and z3.eq(z3.simplify(e[2]), z3.simplify(nm))])
+        P["n_attr_reads"] = p_n_attr_reads
         P["ev_arg"] = lambda ctx, kind, i, k: [e for e in ctx.st.trace if e[0] == kind][i][k]
         P["typeobj"] = lambda ctx, v: SVal(Val.VRef(-1 - typeof(to_val(v))))
 
